@@ -27,7 +27,7 @@ RULE = (
     "(SIGKILL, SIGTERM) while the parent computes evaluation j (immediately, or 0.6 s later while the parent waits for the next request), for j = 0..2 (quick) / every j (thorough) of several "
     "configurations, and the evaluator raises (ValueError, OSError subclasses, KeyError, a custom exception, KeyboardInterrupt, SystemExit) at evaluation j; one configuration has an evaluation that takes 11 s. Oracle: never OPTIMIZER_STEP_FINISHED after a kill, the "
     "step returns within 30 s of the kill, no optimizer process is left running afterwards, the evaluator's exception "
-    "reaches the caller. Error reports: a backend plug-in (found by both processes through its entry point) that, after k "
+    "reaches the caller. One run is made from the orphaned child of a process that imported ropt, forked and exited. Error reports: a backend plug-in (found by both processes through its entry point) that, after k "
     "evaluations, raises with / without a message, fails a bare assert, or leaves the process with exit status 3: the run ends "
     "with an error within 40 s and no process is left. Non-trivial: an equality run with >=3 evaluations, or any crash point."
 )
@@ -136,7 +136,7 @@ def build(name: str, external: bool) -> tuple[dict[str, Any], AffineEvaluator, i
     if spec.get("_paths"):
         import tempfile
 
-        out_dir = tempfile.mkdtemp(prefix="c20-out-")
+        out_dir = tempfile.mkdtemp(prefix="c20-out---READY---")  # (the protocol's delimiter word inside a string value)
         cfg["optimizer"] = {**cfg["optimizer"], "output_dir": out_dir, "stdout": "optimizer.out"}
     if external:
         cfg["optimizer"] = {**cfg["optimizer"], "method": "external/" + cfg["optimizer"]["method"]}
@@ -418,11 +418,49 @@ def child_error_inner(case: dict[str, Any]) -> dict[str, Any]:
             "seconds": round(took, 1)}
 
 
+def run_daemonized(case: dict[str, Any]) -> dict[str, Any]:
+    """The process that imported ropt forks and exits (a daemonizing service); the optimization runs in the orphaned child."""
+    import json
+    import subprocess
+    import sys
+    import tempfile
+
+    with tempfile.TemporaryDirectory() as tmp:
+        result_file = os.path.join(tmp, "result.json")
+        code = ("import json, os, sys\n"
+                "import ropt.plugins.optimizer.external\n"
+                "from ropt.plugins import PluginManager\nPluginManager()\n"
+                "from checks.c20_external import run_config\n"
+                "if os.fork() > 0:\n    os._exit(0)\n"
+                "os.setsid()\n"
+                "a = run_config(sys.argv[1], False)\nb = run_config(sys.argv[1], True)\n"
+                "res = {'calls': [a['calls'], b['calls']], 'codes': [str(a['code']), str(b['code'])], 'exc': [repr(a['exc']), repr(b['exc'])],\n"
+                "       'same': a['requests'] == b['requests'] and a['results_hash'] == b['results_hash'], 'leftover': b['leftover']}\n"
+                "open(sys.argv[2] + '.tmp', 'w').write(json.dumps(res))\nos.rename(sys.argv[2] + '.tmp', sys.argv[2])\n")
+        proc = subprocess.Popen([sys.executable, "-c", code, case["config"], result_file], start_new_session=True,  # noqa: S603
+                                stdout=subprocess.DEVNULL, stderr=subprocess.DEVNULL)
+        proc.wait(timeout=60)
+        deadline = time.time() + 150
+        while not os.path.exists(result_file) and time.time() < deadline:
+            time.sleep(0.2)
+        check(os.path.exists(result_file), "hang", "the daemonized run did not end within 150 s", case)
+        with open(result_file) as fh:
+            res = json.load(fh)
+    check(res["exc"][1] == "None", "external-exception", f"daemonized external run raised {res['exc'][1]}", case)
+    check(res["codes"][0] == res["codes"][1], "exit-code-differs", f"daemonized: in-process {res['codes'][0]}, external {res['codes'][1]}", case)
+    check(res["calls"][0] == res["calls"][1] and res["same"], "trace-differs",
+          f"daemonized: {res['calls'][0]} evaluations in-process, {res['calls'][1]} through the external process", case)
+    check(not res["leftover"], "child-left-running", f"optimizer process {res['leftover']} still running", case)
+    return {"calls": res["calls"][0], "code": res["codes"][0]}
+
+
 def run_case(case: dict[str, Any]) -> dict[str, Any]:
     name = case["config"]
     kind = case["kind"]
     if kind == "standin":
         return run_standin(case)
+    if kind == "daemon":
+        return run_daemonized(case)
     if kind == "child-error":
         return run_child_error(case)
     if kind == "equal":
@@ -487,6 +525,7 @@ def shards(tier: str, seed: int) -> list[dict[str, Any]]:  # noqa: ARG001
     errors = [("empty", 0), ("empty", 1), ("assert", 2), ("message", 1), ("exit3", 1), ("finish", 2)] if tier == "quick" else [
         (e, k) for e in ("empty", "assert", "message", "exit3", "finish") for k in (0, 1, 2, 3)]
     items.extend({"kind": "child-error", "config": "failing-backend", "error": e, "after": k} for e, k in errors)
+    items.append({"kind": "daemon", "config": "slsqp"})
     kill_cfgs = ["slsqp"] if tier == "quick" else ["slsqp", "slsqp-constrained-masked", "nelder-mead-budget", "de-vectorized"]
     points = range(3) if tier == "quick" else range(8)
     for name in kill_cfgs:
